@@ -221,8 +221,15 @@ func TestTagRouting(t *testing.T) {
 		}
 		vh.Rec().Case("tagrouting", ntv, vh.JSON(c))
 		vh.Rec().ClassN("tagrouting", "commands_on_keys_sharing_a_tag", int64(len(c.Steps)))
-		if ntv {
+		half := false
+		for _, m := range c.Migrate {
+			half = half || m >= 0
+		}
+		if ntv && half {
 			vh.Rec().Class("tagrouting", "half_migrated_slot")
+		}
+		if ntv && c.AloneNode {
+			vh.Rec().Class("tagrouting", "a_node_that_has_not_met_the_cluster_answered_two_refreshes")
 		}
 		vh.Rec().Sample("tagrouting", ntv, func() interface{} { return c })
 	})
